@@ -1006,6 +1006,20 @@ impl<'a, E: quiver_core::effects::Effect> Compiler<'a, E> {
                     // A field never short-circuits anything: whatever a match inside it narrowed
                     // holds only on that match's success path, which ends with the field.
                     let narrowings_before = self.scopes.last().map(|s| s.narrowings.clone());
+                    // which local each name stands for before the field (a match in it may REBIND some)
+                    let locals_before: HashMap<String, usize> = self
+                        .scopes
+                        .last()
+                        .map(|s| {
+                            s.bindings
+                                .iter()
+                                .filter_map(|(name, binding)| match binding {
+                                    Binding::Variable { index, .. } => Some((name.clone(), *index)),
+                                    _ => None,
+                                })
+                                .collect()
+                        })
+                        .unwrap_or_default();
                     let compiled = self.compile_chain_with_input(
                         chain.clone(),
                         None,
@@ -1019,6 +1033,27 @@ impl<'a, E: quiver_core::effects::Effect> Compiler<'a, E> {
                         && let Some(scope) = self.scopes.last_mut()
                     {
                         scope.narrowings = saved;
+                        // ... except for the names a match in the field has (re)bound: what was
+                        // saved under such a name describes the variable it replaced (as in
+                        // compile_chain's restore after a mid-chain match).
+                        let rebound: Vec<String> = scope
+                            .bindings
+                            .iter()
+                            .filter_map(|(name, binding)| match binding {
+                                Binding::Variable { index, .. }
+                                    if locals_before.get(name) != Some(index) =>
+                                {
+                                    Some(name.clone())
+                                }
+                                _ => None,
+                            })
+                            .collect();
+                        for name in rebound {
+                            scope.narrowings.variables.remove(&name);
+                            scope.narrowings.fields.retain(|(parent, _, _)| {
+                                !provenance_rooted_at_variable(parent, &name)
+                            });
+                        }
                     }
                     compiled
                 }
